@@ -22,7 +22,8 @@ def force_clim(ds, rng):
                                               [tuple(x) for x in {tuple(s) for s in i0["locs"]}], with_obs=False, zero_rate=0.2,
                                               extras=tuple(f for f in ("pit", "other0") if f in i0["fields"]))
         ds["cfg"]["clim_divide"] = rng.random() < 0.5
-    ds["cfg"].pop("obs_range", None)
+    if rng.random() < 0.6:
+        ds["cfg"].pop("obs_range", None)          # keep -obsrange together with the climatology in a share of the datasets: the range is about the RAW observation
     return ds
 
 
@@ -145,6 +146,24 @@ def _explore(out, tier, seed, facts, replay):
                 pass
             except Exception as e:
                 out.violation("names-with-climatology-exception", "Data(%r, clim=%r) raised %r" % (names_, cname_, e), {"inputs": names_, "climatology": cname_})
+    # the caller's list of inputs is the caller's: building a dataset with a climatology does not append to it, so a second
+    # dataset built from the same list sees the same verified files
+    spec_l = {"times": [0, 86400], "leads": [0.0], "locs": [[1, 0.0, 0.0, 0.0]], "fields": {"obs": [[[1.0]], [[2.0]]], "fcst": [[[1.5]], [[2.5]]]}}
+    ins_l = [datagen.mem_input(spec_l, "a.txt"), datagen.mem_input(spec_l, "b.txt")]
+    nf += 1
+    try:
+        d1_ = verif.data.Data(ins_l, clim=datagen.mem_input(spec_l, "climX.txt"))
+        n1_ = (d1_.num_inputs, list(d1_.get_names()))
+        d2_ = verif.data.Data(ins_l, clim=datagen.mem_input(spec_l, "climX.txt"), legend=["A", "B"])
+        n2_ = (d2_.num_inputs, list(d2_.get_names()))
+        if len(ins_l) != 2 or n1_ != (2, ["a.txt", "b.txt"]) or n2_ != (2, ["a.txt", "b.txt"]) or list(d1_.get_names()) != ["a.txt", "b.txt"]:
+            out.violation("inputs-list-reused", "two datasets built from the same list of two inputs, each with a climatology: the list now has %d entries; first dataset %r, second %r"
+                          % (len(ins_l), n1_, n2_), {"inputs": ["a.txt", "b.txt"], "climatology": "climX.txt"})
+    except datagen.ImplExit as e:
+        out.violation("inputs-list-reused", "a second dataset built from the same list of inputs (with a climatology and one title per verified file) is refused: %s; the list has %d entries" % (e, len(ins_l)),
+                      {"inputs": ["a.txt", "b.txt"], "climatology": "climX.txt"})
+    except Exception as e:
+        out.violation("inputs-list-reused-exception", "%r" % (e,), {"inputs": ["a.txt", "b.txt"]})
     # -c / -C from the command line: -c subtracts, -C divides, whichever climatology option comes LAST decides file and operation
     import os
     import shutil
